@@ -12,6 +12,7 @@ unsigned long long gh_req_n, gh_req_pos;              /* <r/> elements written, 
 unsigned long long gh_ack_n, gh_ack_pos; unsigned gh_ack_h;   /* <a h=../> elements written, index and h of the last one */
 unsigned long long gh_resume_n, gh_resume_pos; unsigned gh_resume_h; qstr gh_resume_previd;   /* <resume h=.. previd=../> elements written */
 vpromise_id gh_request_promise; ResumeRequest gh_request_alt;     /* the pending request's promise (not part of C09) */
+unsigned long long gh_raw_stanza_writes;   /* stanzas handed to the socket directly, i.e. past the ack manager (neither numbered nor stored) */
 #define WIRE_MAX (1ull << 62)
 
 /* ---------------------------------------------------------------- representation invariant of C09 */
@@ -77,6 +78,7 @@ static inline bool XmppSocket_sendData(XmppSocket *s, const WireBytes *b)
   if (b->kind == WB_PACKET && b->id == g_o) { gh_wire_cnt_w++; gh_wire_pos_w = gh_wire_n; }
   else if (b->kind == WB_REQ) { gh_req_n++; gh_req_pos = gh_wire_n; }
   else if (b->kind == WB_ACK) { gh_ack_n++; gh_ack_pos = gh_wire_n; gh_ack_h = b->h; }
+  else if (b->kind == WB_RAW_STANZA) { gh_raw_stanza_writes++; }
   else if (b->kind == WB_RESUME) { gh_resume_n++; gh_resume_pos = gh_wire_n; gh_resume_h = b->h; gh_resume_previd = (qstr)b->id; }
   return nondet_bool();
 }
